@@ -32,6 +32,7 @@ func init() {
 const (
 	c06Feb      int64 = 1676160000 * 1000000000 // Sunday 2023-02-12 00:00:00 UTC
 	c06NewYear  int64 = 1703376000 * 1000000000 // Sunday 2023-12-24 00:00:00 UTC
+	c06In2013   int64 = 1370736000 * 1000000000 // Sunday 2013-06-09 00:00:00 UTC (Moscow civil time was UTC+4 then)
 	c06Ms       int64 = 1000000
 	c06Sec      int64 = 1000 * c06Ms
 	c06Day      int64 = 86400 * c06Sec
@@ -142,8 +143,13 @@ func c06Expect(o c06Obs) (string, string) {
 // both sides of every rollover: nine days from Saturday of week 0.
 func c06StartTime() int64 {
 	c06S0 = c06Feb
-	if verifParam("new-year", c06EpochLo, c06EpochHi) == 1 {
+	switch verifParam("new-year", c06EpochLo, c06EpochHi) {
+	case 1:
 		c06S0 = c06NewYear
+	case 2:
+		// a year in which the civil time of Moscow was not UTC+3 (GLONASS
+		// only: its week is defined by Moscow time, UTC+3 by decree)
+		c06S0 = c06In2013
 	}
 	// every instant the handler computes from T lies within [S0-2d, S0+9w)
 	verifTimeWindow(c06S0-2*c06Day, c06S0+9*c06Week)
@@ -209,6 +215,9 @@ func c06Run(k int, anyStart bool) {
 	var s c06State
 	for i := 0; i < k; i++ {
 		c := verifParam(c04Name("c", i), 0, 3)
+		if c06S0 == c06In2013 && c != c06Glonass {
+			verifAssume(false)
+		}
 		msm7 := verifParam(c04Name("msm7", i), 0, 1)
 		o := c06Legal(c, i)
 		s.precondition(o, t, anyStart)
@@ -277,8 +286,9 @@ func VerifC06_Illegal() {
 func VerifC17_StartAnywhereInWeek() {
 	k := 2
 	// quick: the weeks around New Year (a week that straddles the month and
-	// the year); thorough: an ordinary week as well
-	c06EpochLo, c06EpochHi = 1, 1
+	// the year) and, for GLONASS, a week of 2013; thorough: an ordinary week
+	// as well
+	c06EpochLo, c06EpochHi = 1, 2
 	if verifTier() > 0 {
 		k = 3
 		c06EpochLo = 0
